@@ -132,8 +132,13 @@ def parseEvent (bundles : List Bundle) (peers : List Peer) (s : String) : Option
 def kv (fs : List String) (k : String) : Option String :=
   (fs.find? (·.startsWith (k ++ "="))).map (fun f => (f.drop (k.length + 1)).toString)
 
-/-- `seqFirst` / `expiryNow` select the code variant (facts regenerated from the source). -/
-def parseHist (seqFirst expiryNow : Bool) (line : String) : Option Hist := do
+/-- The code variant the model mirrors (facts regenerated from the source). -/
+structure Variant where
+  seqFirst : Bool
+  expiryNow : Bool
+  dtlsrFail : Bool
+
+def parseHist (v : Variant) (line : String) : Option Hist := do
   let fs := fields line
   let op ← fs.head?
   let cfgS ← kv fs "cfg"
@@ -160,7 +165,8 @@ def parseHist (seqFirst expiryNow : Bool) (line : String) : Option Hist := do
       | _ => none)
   let evS ← kv fs "ev"
   let cfg : Cfg := { self := self, algo := algo, mule := mule, sensorNodes := sensors, sprayL := l,
-                     bcast := ⟨999, 0⟩, seqFirst := seqFirst, expiryNow := expiryNow }
+                     bcast := ⟨999, 0⟩, seqFirst := v.seqFirst, expiryNow := v.expiryNow,
+                     dtlsrFail := v.dtlsrFail }
   let mut obs : List Obs := []
   let mut panicAt : Option Nat := none
   let mut i := 0
@@ -280,8 +286,8 @@ def replay (h : Hist) : Option String :=
   go (init h.cfg h.now) 0 h.obs
 
 /-- Judge one line with the given Spec clause set. -/
-def judge (seqFirst expiryNow : Bool) (spec : Ctx → SpecSt → Obs → Option String) (line : String) : String :=
-  match parseHist seqFirst expiryNow line with
+def judge (v : Variant) (spec : Ctx → SpecSt → Obs → Option String) (line : String) : String :=
+  match parseHist v line with
   | none => "skip parse"
   | some h =>
     match h.panicAt with
